@@ -7,7 +7,7 @@ export GOFLAGS=-mod=mod GOPROXY=off GOSUMDB=off GOTOOLCHAIN=local CGO_ENABLED=0
 mkdir -p /verif/build /verif/evidence /verif/replays
 cp /repo/go.sum /verif/go/go.sum
 cd /verif/go
-for e in nodediff clustersim codecdiff conndiff logdiff repldiff; do
+for e in nodediff clustersim codecdiff conndiff logdiff repldiff probelive; do
   go build -tags verif -o /verif/build/$e ./$e
 done
 echo setup done
